@@ -3,6 +3,8 @@
 Simulated dimension: a re-entrancy schedule. The scenario decides which system, at which queue
 position and timestep, mutates the list the scheduler is walking; the recorded per-timestep
 history is checked against conditions (a)-(f) of DESIGN.md section 5/C05."""
+from ECAgent.Core import System
+
 from .common import SID, Model, Rec, RefSched, SystemNotFoundError, gen_flavour, gen_prio, gen_window, rec_class, spec_defaults
 
 PROPERTY = "C05"
@@ -14,12 +16,12 @@ RULE = ("seeded re-entrancy schedules: 2-8 recording systems, 1-4 actor scripts 
         "effective mutation executed from inside a timestep while >=1 eligible system of the step's initial "
         "queue was still behind the actor; distinct = distinct abstract schedule shape (queue length, actor "
         "position, action kind, relative target position / priority relation per effective mutation)"
-        "; also: falsy systems (__len__ == 0 / __bool__ false), removal through the target's own clean_up(), str-subclass ids, systems that are bundled Collector / FileCollector objects, a system switched off-on-off within one turn, a registered system re-prioritised in mid-step (attribute assigned, removed, the same object re-added), instance identity (id#generation), hot swap of an id, nested stepping of another model from inside a system, systems with value-based __eq__")
+        "; also: falsy systems (__len__ == 0 / __bool__ false), removal through the target's own clean_up(), requests for several timesteps at once (each judged on its own), str-subclass ids, systems that are bundled Collector / FileCollector objects, a system switched off-on-off within one turn, a registered system re-prioritised in mid-step (attribute assigned, removed, the same object re-added), instance identity (id#generation), hot swap of an id, nested stepping of another model from inside a system, systems with value-based __eq__")
 COMPONENTS = {"real": ["ECAgent.Core.SystemManager (add_system, remove_system, execute_systems)", "ECAgent.Core.Model",
                        "ECAgent.Core.System.clean_up"],
               "stub": ["System.execute bodies are harness recording systems driven by the scenario script"]}
 PROBES = ["actor_first", "actor_middle", "actor_last", "target_before", "target_self", "target_after",
-          "new_higher", "new_equal", "new_lower", "two_mutations_one_step", "hot_swap_same_id", "other_model_stepped_mid_timestep", "systems_with_value_equality", "falsy_systems", "removed_via_targets_clean_up", "reprioritised_same_object", "systems_returning_values_from_execute", "switched_off_on_off_in_one_turn", "str_subclass_ids",
+          "new_higher", "new_equal", "new_lower", "two_mutations_one_step", "hot_swap_same_id", "other_model_stepped_mid_timestep", "systems_with_value_equality", "falsy_systems", "removed_via_targets_clean_up", "reprioritised_same_object", "systems_returning_values_from_execute", "switched_off_on_off_in_one_turn", "str_subclass_ids", "multi_step_request",
           "systems_that_are_bundled_collectors"]
 SHRINK_LISTS = ["scripts", "systems"]
 SHRINK_SKIP = ("end",)
@@ -80,7 +82,23 @@ def generate(rng, tier):
                             "via": rng.choice(["id", "clean_up"])})
             prio_of[tgt] = actions[-1]["prio"]
         scripts.append({"actor": actor, "t": t, "actions": actions})
-    return dict({"systems": systems, "scripts": scripts, "steps": steps, "strsub_ids": rng.random() < 0.12}, **gen_flavour(rng))
+    multi = [rng.choice([1, 1, 2, 3, 5]) for _ in range(steps)] if rng.random() < 0.3 else []      # requests for several timesteps
+    return dict({"systems": systems, "scripts": scripts, "steps": steps, "strsub_ids": rng.random() < 0.12, "multi": multi},
+                **gen_flavour(rng))
+
+
+class StepEnd(System):
+    """Harness sentinel: registered below every possible priority, it is the last system of every timestep and lets the
+    world judge that timestep (and prepare the next one when the request covers several)."""
+
+    def __init__(self, model, world):
+        super().__init__("verif-step-end", model, priority=-(2 ** 90))
+        self.world = world
+
+    def execute(self):
+        self.world.end_step()
+        if self.world.remaining > 0:
+            self.world.begin_step()
 
 
 class World:
@@ -293,7 +311,7 @@ class World:
         else:
             self.shape.append([len(self.q0), -1, kind, rel, 0])
 
-    def step(self):
+    def begin_step(self):
         ctx, ref, sm = self.ctx, self.ref, self.model.systems
         t = ref.t
         self.q0 = ref.ids()
@@ -303,12 +321,28 @@ class World:
         self.added_now = []
         self.readded = set()      # uids of instances removed and registered again (same object) during this step
         self.mut_this_step = 0
-        st, v = ctx.call(self.model.execute)
+
+    def step(self, n=1):
+        """One request for n timesteps; every timestep is judged on its own (the sentinel system closes each one)."""
+        ctx = self.ctx
+        self.remaining = n
+        self.begin_step()
+        st, v = ctx.call(self.model.execute, n) if n > 1 else ctx.call(self.model.execute)
         if st != "ok":
             ctx.fail("step:unexpected-exception", f"{type(v).__name__}: {v}")
+        ctx.check(self.remaining == 0, "clock", f"a request for {n} timestep(s) ended with {self.remaining} of them not run")
+        ctx.check(self.model.systems.timestep == self.ref.t, "clock", f"timestep {self.model.systems.timestep} != {self.ref.t}")
+        if n > 1:
+            ctx.probe("multi_step_request")
+
+    def end_step(self):
+        """Called by the sentinel system as the last act of every timestep (the scheduler has not advanced the clock yet)."""
+        ctx, ref, sm = self.ctx, self.ref, self.model.systems
+        t = ref.t
         ctx.sim_time += 1
         ref.t += 1
-        ctx.check(sm.timestep == ref.t, "clock", f"timestep {sm.timestep} != {ref.t}")
+        ctx.check(sm.timestep + 1 == ref.t, "clock", f"timestep {sm.timestep} during step {ref.t - 1}")
+        self.remaining -= 1
         execs = [e[2] for e in self.log if e[0] == "x"]          # instance uids, in execution order
         exec_ids = [e[1] for e in self.log if e[0] == "x"]
         # (a) nobody runs twice
@@ -367,8 +401,13 @@ def execute(sc, ctx):
         ctx.expect_ok("setup-add", w.model.systems.add_system, o)
         w.ref.add(spec)
         w.uid_of[spec["id"]] = o.uid
-    for _ in range(min(int(sc["steps"]), 40)):
-        w.step()
+    ctx.expect_ok("setup-add", w.model.systems.add_system, StepEnd(w.model, w))
+    left = min(int(sc["steps"]), 40)
+    multi = list(sc.get("multi") or [])
+    while left > 0:
+        n = min(left, int(multi.pop(0)) if multi else 1)
+        w.step(max(1, n))
+        left -= max(1, n)
     ctx.sig = w.shape
 
 TECHNIQUE = "deterministic simulation: seeded re-entrancy schedules through the real scheduler, per-timestep history oracle, ddmin + JSON replay"
